@@ -39,7 +39,7 @@ META = {
                 text="All register/change/cancel/re-register/RST/delete/close operation sequences up to depth 4/6 by 1-2 clients and a raw observer on 2 resources, each under all schedules with <=1/2 deviations; a per-observer automaton checks tokens, strictly increasing Observe values (RFC 7641 serial order), a CON at least every sixth notification, eventual notification of the last state, silence after deregistration, single entry on re-registration, session kept alive.",
                 note="Bounds per evidence."),
     "C12": dict(engine="vx-netsim", technique="exhaustive enumeration of session-lifecycle operation sequences (UDP and raw TCP peers, observations, async, references, disconnects, time jumps) with teardown after every prefix against a reference model of events and reference holders, ASan/LSan and allocator counters",
-                text="All sequences up to depth 5/7 of requests from distinct/identical peers, observe, async, application reference/release, time jumps across the session timeout and context teardown; session identity per peer tuple, one NEW/DEL event pair per server session, no reclamation while referenced, idle reclamation and eviction, and a leak/double-free/use-after-free-clean teardown (ASan, LSan, per-tag allocation counters). Stage c12cli: two client sessions of one context, all sequences (depth 6/7) of send CON/NON, application release/reference, peer answer/reset, retransmission timer and give-up followed by teardown; a session must never be freed while the application or a queued Confirmable holds it and exactly once in the end.",
+                text="All sequences up to depth 5/7 of requests from distinct/identical peers, observe, async, application reference/release, time jumps across the session timeout and context teardown; session identity per peer tuple, one NEW/DEL event pair per server session, no reclamation while referenced, idle reclamation and eviction, and a leak/double-free/use-after-free-clean teardown (ASan, LSan, per-tag allocation counters). Stage c12many: 1..50 distinct peers x max_idle_sessions {0,1,2,3,7,N-1,N,N+1} x 6 request patterns against a model of the idle set (oldest idle reclaimed at the limit, held sessions never). Stage c12cli: two client sessions of one context, all sequences (depth 6/7) of send CON/NON, application release/reference, peer answer/reset, retransmission timer and give-up followed by teardown; a session must never be freed while the application or a queued Confirmable holds it and exactly once in the end.",
                 note="Bounds per evidence (old alphabet depth 5/6, enlarged alphabet with TCP peer / several observations / disconnect depth 4/5); peers <= 4 + one TCP peer."),
     "C13": dict(engine="vx-sched", technique="preemption-bounded exhaustive exploration of thread interleavings under a cooperative scheduler over the real lock operations, scheduling points inside every application callback",
                 text="Real pthreads serialised by a futex hand-off scheduler with scheduling points at every global-lock operation and I/O wait; all schedules with <=2/3 preemptions of 2-3 API threads plus an I/O thread, callbacks re-entering the API; invariants: lock ownership on entry to every *_lkd function (via -finstrument-functions), no deadlock/livelock, lock free at the end; the library is compiled twice, with the configuration headers each of the repository's two build systems emits on the current tree (CMake configure: plain lock; autogen.sh + ./configure defaults: the recursive-check lock variant), and the whole exploration runs on both.",
